@@ -13,7 +13,11 @@ from common import exc_name  # noqa: E402
 
 # junk: lines no recogniser of the section may accept
 JUNK_COMMON = ["", "   ", "garbage", "12345", "0 = ", "= N 0 0", "0 = X 1 2", "  [ExpertSingle]", "  {", "0 = N 0", "0 = E",
-               "} ", "}\t", "{ ", "{\t", " }", "}}", "{}", "} {", "[Song]", "[ExpertSingle] "]
+               "} ", "}\t", "{ ", "{\t", " }", "}}", "{}", "} {", "[Song]", "[ExpertSingle] ",
+               # fragments of the formatting mini-languages: a skipped line is TEXT, whatever a message template makes of it
+               # (round 11, seeded/C14k / C09k / C18k: the regex error's message built by formatting over the line)
+               "// 100% done", "progress = 75%", "%s", "%d %(a)s", "%", "0 = N 9 0 %s", "{0}", "{name}", "{!r}", "{0.__class__}",
+               "crowd {} on", "$x ${y}", "\\n \\x41 \\", "%%", "{{x}}"]
 JUNK = {
     "track": JUNK_COMMON + ["0 = N 8 0", "0 = S 64 10", "0 = S 0 10", "0 = E two words", "0 = B 120000", "0 = TS 4",
                             "0 = A 100", '0 = E "section x"', "Resolution = 192", "0 = N -1 0", "0 = N 0 0 0", "0 = n 0 0"],
@@ -202,7 +206,8 @@ def record(r, cid, sec, tokens, copy=False, given=None, indent="  ", direct=None
         for x in (raw, raw.strip()):
             out.add(repr(x)[1:-1])
             out.add(ascii(x)[1:-1])
-        return {x for x in out if x.strip()}
+        # (the reports were stripped of line terminators, written raw or escaped: so is what is looked for in them)
+        return {y for y in (x.replace("\n", "").replace("\\n", "") for x in out) if y.strip()}
 
     def names(msg, ln):
         f = forms(ln)
@@ -210,7 +215,8 @@ def record(r, cid, sec, tokens, copy=False, given=None, indent="  ", direct=None
 
     def quoted(ln):
         raw = indent + ln
-        return {'"' + raw + '"', "'" + raw + "'", repr(raw), '"' + raw.strip() + '"', "'" + raw.strip() + "'"} if raw.strip() else set()
+        qs = {'"' + raw + '"', "'" + raw + "'", repr(raw), '"' + raw.strip() + '"', "'" + raw.strip() + "'"} if raw.strip() else set()
+        return {x.replace("\n", "").replace("\\n", "") for x in qs}
 
     valid_q = set().union(*[quoted(ln) for ln, tok in zip(body, tokens) if tok != "junk"]) if body else set()
     junk_q = set().union(*[quoted(body[k - 1]) for k in junk_idx]) if junk_idx else set()
